@@ -61,16 +61,46 @@ fn now_ms() -> u64 {
 }
 
 pub fn note_case(desc: &str) {
+    CASE_START_CPU_MS.store(process_cpu_ms(), Ordering::SeqCst);
     CASE_START_MS.store(now_ms(), Ordering::SeqCst);
     if let Ok(mut g) = CURRENT_CASE.lock() { g.clear(); g.push_str(desc); }
 }
 pub fn case_done() { CASE_START_MS.store(0, Ordering::SeqCst); }
+
+static CASE_START_CPU_MS: AtomicU64 = AtomicU64::new(0);
+static CPU_LIMIT: Mutex<Option<(String, u64)>> = Mutex::new(None);
+
+fn process_cpu_ms() -> u64 {
+    let mut ts = libc::timespec { tv_sec: 0, tv_nsec: 0 };
+    unsafe { libc::clock_gettime(libc::CLOCK_PROCESS_CPUTIME_ID, &mut ts); }
+    ts.tv_sec as u64 * 1000 + ts.tv_nsec as u64 / 1_000_000
+}
+
+/// For properties whose statement includes termination (C18: "within bounded time ... never loop"): a single
+/// case that has burnt `cpu_s` seconds of *CPU time* (not wall time, so machine load cannot cause it) is reported
+/// as a violation of `prop` instead of as an inconclusive watchdog kill.
+pub fn set_cpu_limit(prop: &str, cpu_s: u64) { *CPU_LIMIT.lock().unwrap() = Some((prop.to_string(), cpu_s)); }
 
 pub fn start_watchdog(limit_s: u64) {
     let _ = now_ms();
     std::thread::spawn(move || loop {
         std::thread::sleep(Duration::from_millis(500));
         let st = CASE_START_MS.load(Ordering::SeqCst);
+        if st != 0 {
+            if let Some((prop, cpu_s)) = CPU_LIMIT.lock().ok().and_then(|g| g.clone()) {
+                let used = process_cpu_ms().saturating_sub(CASE_START_CPU_MS.load(Ordering::SeqCst));
+                if used > cpu_s * 1000 {
+                    let c = CURRENT_CASE.lock().map(|g| g.clone()).unwrap_or_default();
+                    let choices: Vec<u32> = c.trim_start_matches("choices=[").trim_end_matches(']').split(',').filter_map(|x| x.trim().parse().ok()).collect();
+                    let msg = json!({"property": prop, "evaluations": 1, "classes": {}, "discards": {}, "known_hits": {}, "samples": [], "nontrivial_hashes": [],
+                        "failure": {"kind": "does-not-return", "signature": format!("{}:does-not-return", prop),
+                                    "message": format!("a single case used more than {} s of CPU time without returning (the property includes termination)", cpu_s),
+                                    "case": c, "choices": choices, "family": "random16"}}).to_string();
+                    crate::capture::real_stdout(&format!("{}\n", msg));
+                    std::process::exit(1);
+                }
+            }
+        }
         if st != 0 && now_ms().saturating_sub(st) > limit_s * 1000 {
             let c = CURRENT_CASE.lock().map(|g| g.clone()).unwrap_or_default();
             let msg = json!({"watchdog": true, "case": c, "limit_s": limit_s}).to_string();
